@@ -387,6 +387,18 @@ func (e *Env) ranged(v Val) Val {
 		return v
 	}
 	c := e.tr.c
+	switch v.typ.Underlying().(type) {
+	case *types.Slice, *types.Pointer, *types.Map:
+		// a slice header or pointer read from the heap is well-formed and points below the
+		// allocation frontier of the state it is read in (exactly what a load in the code assumes)
+		nm := c.define("ldr", c.sortOf(v.typ), v.t)
+		v2 := v
+		v2.t = nm
+		if facts := e.tr.typeFacts(e.st, v2); len(facts) > 0 {
+			c.axiom(nm, and(facts...))
+		}
+		return v2
+	}
 	b, ok := v.typ.Underlying().(*types.Basic)
 	if !ok {
 		return v
